@@ -1014,6 +1014,7 @@ def check(ctx):
     forwarding(rep, model)
     signatures(rep, model)
     sampling(rep, model, thorough)
+    element_ownership(rep, model)
     return rep
 
 
@@ -1160,6 +1161,9 @@ class EH(Hooks):
             return Builtin('tspace.element', el)
         if isinstance(obj, Rec) and name in obj.attrs:
             return obj.attrs[name]
+        if obj is NPV and name in ('may_share_memory', 'shares_memory'):
+            # abstract, distinct arrays (memory ownership is rule R4c)
+            return Builtin('np.' + name, lambda a, b: False)
         return NotImplemented
 
     def on_call(self, interp, f, args, kwargs, node):
@@ -1183,7 +1187,7 @@ def _element(rep, model):
     I = EI(model, {}, h)
     inst = Inst(ci)
     dom = Rec('domain')
-    mg = Rec('meshgrid')
+    mg = (Rec('mesh0'), Rec('mesh1'))
     dt = Rec('dtype')
     inst.attrs.update({'domain': dom, 'meshgrid': mg, 'dtype': dt,
                        'tspace': Rec('tspace'),
@@ -1648,6 +1652,121 @@ def sample_once(model, fname, style, conv, with_out, kw=None):
         kwargs['out'] = out
     res = I.call_func(Func(pc, env, None), [wrapped, x], kwargs)
     return res, want, shape, out, uf
+
+
+def element_ownership(rep, model):
+    """R4c: `DiscretizedSpace.element(callable)` hands the tensor space an
+    array that holds the function values and shares no memory with the
+    space's own mesh arrays (a callable may return its argument, or a view of
+    it): otherwise writing into the new element changes the grid and every
+    later sampling."""
+    import numpy as _np
+    ci = model.get('DiscretizedSpace')
+    if ci is None or 'element' not in ci.methods:
+        raise AnalysisError('anchor vanished: DiscretizedSpace.element')
+    DSP = 'odl/discr/discr_space.py'
+    fn = ci.methods['element']
+    A = [Rat.var('a%d' % i) for i in range(3)]
+    B = [Rat.var('b%d' % i) for i in range(2)]
+
+    def ident1(I, H, x, c):
+        return x[0] if isinstance(x, tuple) else x
+
+    def ident1_view(I, H, x, c):
+        x0 = x[0] if isinstance(x, tuple) else x
+        return NA(x0.a[:], x0.dt)
+
+    def coord0(I, H, x, c):
+        return _coord(x, 0)
+
+    def square1(I, H, x, c):
+        x0 = x[0] if isinstance(x, tuple) else x
+        return H.binop_na(I, ast.Mult, x0, x0)
+    cases = [('1-d, lambda x: x', 1, ident1, lambda i, j: A[i]),
+             ('1-d, a view of x', 1, ident1_view, lambda i, j: A[i]),
+             ('1-d, lambda x: x * x', 1, square1, lambda i, j: A[i] * A[i]),
+             ('2-d, lambda x: x[0]', 2, coord0, lambda i, j: A[i])]
+    n = 0
+    for tag, ndim, formula, expect in cases:
+        n += 1
+        cons = 'DiscretizedSpace.element[%s]' % tag
+        captured = []
+
+        class EH(SamplH):
+            def on_getattr(self, interp, obj, name):
+                if isinstance(obj, Inst) and obj.ci.name == \
+                        'DiscretizedSpace':
+                    if name == 'meshgrid':
+                        return mesh
+                    if name == 'domain':
+                        return Rec('IntervalProd', ndim=ndim,
+                                   contains_all=Builtin(
+                                       'contains_all', lambda x: True))
+                    if name == 'dtype':
+                        return DT('float64')
+                    if name == 'tspace':
+                        def element(arr=None, order=None, **k):
+                            captured.append(arr)
+                            return Rec('tensor', data=arr)
+                        return Rec('tspace', element=Builtin(
+                            'tspace.element', element))
+                    if name == 'element_type':
+                        return Builtin('element_type', lambda sp, t: Rec(
+                            'discr-element', tensor=t))
+                if isinstance(obj, Rec) and name in obj.attrs:
+                    return obj.attrs[name]
+                return SamplH.on_getattr(self, interp, obj, name)
+
+        class EI(NAInterp):
+            def contains(self, cont, item, node):
+                if isinstance(cont, (Inst, Rec)):
+                    return False
+                return NAInterp.contains(self, cont, item, node)
+        try:
+            H = EH()
+            I = EI(model, {}, H)
+            if ndim == 1:
+                mesh = (NA(_np.array(A, dtype=object)),)
+                shape = (3,)
+            else:
+                mesh = (NA(_np.array(A, dtype=object).reshape(3, 1)),
+                        NA(_np.array(B, dtype=object).reshape(1, 2)))
+                shape = (3, 2)
+            uf = UserFunc('ident', 'oop', formula, ndim)
+            f = H.user(I, uf)
+            I.call_func(Func(fn, I.env_of(DSP), ci), [Inst(ci), f], {})
+            probs = []
+            if len(captured) != 1 or not isinstance(captured[0], NA):
+                raise Undecided('tensor space received %r' % (captured,))
+            arr = captured[0]
+            if arr.a.shape != shape:
+                probs.append('array of shape %r for a space of shape %r'
+                             % (arr.a.shape, shape))
+            else:
+                for idx in _np.ndindex(*shape):
+                    w = expect(idx[0], idx[1] if ndim == 2 else None)
+                    g = arr.a[idx]
+                    if g is None or not (to_rat(g) - w).is_zero():
+                        probs.append('entry %r is %r, the function value is '
+                                     '%r' % (idx, g, w))
+                        break
+            for k, m in enumerate(mesh):
+                if _np.shares_memory(arr.a, m.a):
+                    probs.append('the element data share memory with the '
+                                 'mesh array of axis %d: writing into the '
+                                 'element changes the grid of the space' % k)
+            if probs:
+                rep.violation('R4c', cons, '; '.join(probs), DSP, fn.lineno)
+            else:
+                rep.holds('R4c', cons, 'function values in memory of their '
+                          'own')
+        except Undecided as e:
+            rep.undecided('R4c', cons, str(e), DSP, fn.lineno)
+        except PyRaise as e:
+            rep.violation('R4c', cons, 'raises %s at `%s`' % (
+                e.name, ast.unparse(e.node)[:70] if e.node is not None
+                else '?'), DSP, fn.lineno)
+    rep.floor('R4c', 'element ownership cases', n, 4)
 
 
 def sampling(rep, model, thorough):
